@@ -979,10 +979,10 @@ Definition fund_reserve (cfg : config) (st : state) (user asset denom amt : Z) :
    deleted together with the borrow record by the close).  A market bid that does not close the auction
    moves coins between the bidder and the auction module account only (property C10's subject; both
    accounts are outside the projection): nothing of the lend state changes. *)
-Definition auc_bid (st : state) (bid : Z) (accepted : bool) : outcome state :=
+Definition auc_bid (st : state) (bid d : Z) : outcome state :=      (* d (ENV): 1 accepted, 2 panic, else rejected *)
   match zget (borrows st) bid with
   | None => Err 51
-  | Some b => if negb (b_liq b) then Err 51 else if accepted then Ok st else Err 50
+  | Some b => if negb (b_liq b) then Err 51 else if d =? 1 then Ok st else if d =? 2 then Panic else Err 50
   end.
 
 (* coins that arrive from an account whose ledger is not modelled (the debt coins the bidders paid into
@@ -1096,7 +1096,7 @@ Inductive op :=
 | OCalc (user : Z) (es : list biter) (ipbs : list Z)
 | OSetPrice (asset : Z) (p : option Z)             (* oracle: the active Twa, or none *)
 | OHandOver (bid d dint : Z)                       (* MsgLiquidateInternalKeeper{LiqType 1, Id bid} *)
-| OAucBid (bid : Z) (accepted : bool)              (* MsgPlaceMarketBid on the auction of position bid that does not close it *)
+| OAucBid (bid d : Z)                              (* MsgPlaceMarketBid on the auction of position bid that does not close it *)
 | OAucClose (bid target owner back : Z)            (* the closing MsgPlaceMarketBid: MsgCloseDutchAuctionForBorrow *)
 | ORepayWithdraw (user bid : Z) (e : biter) (ipb : Z)
 | OFundMod (user poolid asset denom amt : Z)       (* MsgFundModuleAccounts *)
@@ -1126,7 +1126,7 @@ Definition step (cfg : config) (st : state) (o : op) : outcome state :=
       Ok (mkSt (lends st) (borrows st) (sstats st) (bnk st) (lctr st) (bctr st)
                (match p with Some v => zset (prices st) a v | None => zdel (prices st) a end))
   | OHandOver bid d dint => if bid =? 0 then Err 100 else hand_over cfg st bid d dint
-  | OAucBid bid acc => auc_bid st bid acc
+  | OAucBid bid d => auc_bid st bid d
   | OAucClose bid target owner back => auc_close cfg st bid target owner back
   | ORepayWithdraw u bid e ipb => if bid =? 0 then Err 100 else repay_withdraw cfg st u bid e ipb
   | OFundMod u p a d amt => if (p =? 0) || (a =? 0) || (amt <=? 0) then Err 100 else fund_mod cfg st u p a d amt
